@@ -267,7 +267,9 @@ def run():
                           'contents <= 7 bytes over {a,b,e-acute(2 bytes),\\n,\\r} x binary/text x blocksize 1..len+1 and '
                           'default, real files for <= 4 bytes; JSONL: <= 3 lines from {2 valid, 2 blank, 2 corrupt} x '
                           '\\n/\\r\\n x final terminator x binary/text x blocksize {default,1,3,7}; 4 lines with blocksize '
-                          '{default,2}; multi-block files sweeping the 4096 edge',
+                          '{default,2}; multi-block files sweeping the 4096 edge; directed: files with \\v \\f \\x1c-\\x1e \\x85 U+2028 '
+                          'U+2029 inside first/middle/last lines (not separators for reverse_iter_lines), JSONL files with runs '
+                          'of 1200-1500 blank lines, lines nested 30000 deep',
                     thorough='texts <= 6; contents <= 9 bytes (+ U+1F600, 4 bytes, <= 6); JSONL <= 4 lines all block '
                              'sizes {default,1,2,3,5,7,16}; seeded random files'))
     rnd = random.Random(H.seed)
@@ -304,6 +306,11 @@ def run():
                  ('\U0001F600\n\U0001F600b\r\n\n'.encode(), 'binary', 'utf-8'),
                  (b'\n' * 9, 'binary', 'utf-8'), (b'x' * 5000 + b'\r\n' + b'y' * 4096 + b'\n', 'text', 'utf-8'),
                  (b'\n' + b'x' * 4095 + b'\n' + b'y' * 4095, 'binary', 'utf-8')]
+        # characters that str.splitlines() treats as line breaks but reverse_iter_lines must not (only \n / \r\n separate):
+        # in the first line (the remainder handled at the start of the file), in the middle and in the last line
+        for ch in ('\x0b', '\x0c', '\x1c', '\x1d', '\x1e', '\x85', '\u2028', '\u2029'):
+            for t in ('a%sb\nc\n' % ch, 'a\nb%sc\nd' % ch, 'a\nb%s' % ch, '%s' % ch, 'a%sb' % ch, '%s\r\n%s\n' % (ch, ch)):
+                extra += [(t.encode(), 'text', 'utf-8'), (t.encode(), 'binary', 'utf-8')]
         if H.thorough:
             extra += [(c, m, 'utf-8') for c in contents_upto(6, syms[:1] + ['\U0001F600'.encode(), b'\n', b'\r'])
                       for m in ('binary', 'text')]
@@ -343,6 +350,10 @@ def run():
         for lines in ([b'{"k": 1}', deep, b'{"k": 2}'], [deep, b'{"k": 1}'], [b'{"k": 1}', deep]):
             for mode in ('binary', 'text'):
                 check_jsonl(H, lines, b'\n', True, mode, None, 'jsonl_deep_nesting')
+        # long runs of blank lines (skipping must not consume stack): more than the default recursion limit of them
+        for lines in ([b'{"k": 1}'] + [b''] * 1500 + [b'{"k": 2}'], [b' '] * 1200 + [b'{"k": 1}'], [b'{"k": 1}'] + [b''] * 1200):
+            for mode in ('binary', 'text'):
+                check_jsonl(H, lines, b'\n', True, mode, None, 'jsonl_blank_runs')
         # multi-block files: sweep the position of the 4096-byte edge across a line boundary and a 2-byte char
         for first in (b'', b'{"k": 0}', b'{"k":'):
             for pad in range(4084, 4096):
